@@ -77,7 +77,7 @@ Lemma ksum_single (f : nat -> K) (l : list nat) (y : nat) :
   NoDup l -> In y l -> ksum (fun x => if Nat.eqb y x then f x else 0) l = f y.
 Proof.
   induction l as [|x t IH]; intros ND Hy; [destruct Hy|]. cbn [ksum].
-  inversion ND as [|x' t' Hnx NDt]; subst.
+  inversion ND as [|x' t' Hnx NDt]; subst x' t'.
   destruct (Nat.eqb y x) eqn:E.
   - apply Nat.eqb_eq in E. subst x. rewrite ksum_zero; [ring|].
     intros z Hz. destruct (Nat.eqb y z) eqn:E2; [|reflexivity].
@@ -92,7 +92,7 @@ Lemma ksum_restrict (F : nat -> K) (l ks : list nat) :
 Proof.
   intros NDl. revert F. induction ks as [|k ks IH]; intros F NDk Hin Hz.
   - cbn [ksum]. apply ksum_zero. intros b Hb. apply Hz; [exact Hb|intros []].
-  - inversion NDk as [|k' ks' Hnk NDks]; subst. cbn [ksum].
+  - inversion NDk as [|k' ks' Hnk NDks]; subst k' ks'. cbn [ksum].
     rewrite (ksum_ext F (fun b => (if Nat.eqb k b then F b else 0) + (if Nat.eqb k b then 0 else F b))).
     2:{ intros b _. destruct (Nat.eqb k b); ring. }
     rewrite ksum_plus, ksum_single; [|exact NDl|apply Hin; left; reflexivity]. f_equal.
